@@ -35,6 +35,11 @@ def catalogue():
         add("bits-%d" % bits, "bits Foo:\n  0 [+%d]  UInt:8[]  x\n" % bits if bits % 8 == 0 and False else "bits Foo:\n  0 [+1]  Flag  a\n  %d [+1]  Flag  z\n" % (bits - 1), ok)
     add("bits-dynamic-size", "struct Outer:\n  0 [+1]  UInt  n\n  1 [+1]  bits:\n    0 [+n]  UInt  x\n", False)
     add("struct-in-bits", "struct Inner:\n  0 [+1]  UInt  a\nbits Foo:\n  0 [+8]  Inner  x\n", False)
+    # no byte-oriented member in a bits type, at every position a type can occur (scalar, array element, inner array element)
+    for tn, decl, unit in (("struct", "struct Inner:\n  0 [+1]  UInt  a\n", 8), ("byte-external", "external Inner:\n  [addressable_unit_size: 8]\n  [fixed_size_in_bits: 8]\n", 8),
+                           ("bits", "bits Inner:\n  0 [+8]  UInt  a\n", 1), ("bit-external", "external Inner:\n  [addressable_unit_size: 1]\n  [fixed_size_in_bits: 8]\n", 1)):
+        for shape, suffix, total in (("scalar", "", 8), ("array", "[2]", 16), ("array-2d", "[2][2]", 32)):
+            add("%s-%s-member-in-bits" % (tn, shape), decl + "bits Foo:\n  0 [+%d]  Inner%s  x\n" % (total, suffix), unit == 1)
     add("bits-in-struct", "bits Inner:\n  0 [+8]  UInt  a\nstruct Foo:\n  0 [+1]  Inner  x\n", True)
     # enums
     add("enum-value-fits-64", "enum Ee:\n  AA = 18446744073709551615\n", True)
